@@ -190,9 +190,14 @@ func (v SolutionVehicle) bestMovePlanSingleStop(
 	}
 	solution := planUnit.solution()
 	rand := solution.random
+	model := solution.model.(*modelImpl)
 
 	for !stop.IsLast() {
 		stop = stop.Next()
+		// never insert between two stops that have to stay direct neighbours
+		if mustBeNeighbours(model, stop.Previous(), stop) {
+			continue
+		}
 		pos := newStopPosition(
 			stop.Previous(),
 			candidateStop,
